@@ -143,6 +143,12 @@ class Prop(BaseProp):
             else:
                 lay = Layout(rng, comments=0.6, wild=0.6, case="random")
             t = render(mod, lay)
+            if kind in ("ws", "all") and rng.random() < 0.5:
+                t = t.rstrip("\r\n")                 # the file does not end with a newline
+                res.count("variants_without_final_newline")
+            if kind in ("case", "comments") and rng.random() < 0.3:
+                t = "\ufeff" + t                     # byte order mark
+                res.count("variants_with_byte_order_mark")
             if t != base:
                 differing += 1
             res.count("comments_inserted", lay.stats["line_comments"] + lay.stats["bracket_comments"])
